@@ -172,6 +172,8 @@ fn contexts() -> Vec<(&'static str, String, u64)> {
         ("nested-svg-child", format!("<svg><rect wh=\"5\" text=\"R{r}\"/></svg>"), 1),
         ("dwh", "<rect wh=\"20\" dwh=\"{{randint(1, 9)}}\"/>".to_string(), 1),
         ("circle-r-text", format!("<circle r=\"{{{{randint(1, 9)}}}}\" text=\"R{r}\" text-loc=\"t\"/>"), 2),
+        ("reuse-of-previous-shape", format!("<rect wh=\"5\" text=\"R{r}\"/><reuse href=\"^\" y=\"10\"/>"), 2),
+        ("reuse-of-previous-group", format!("<g><rect wh=\"5\" text=\"R{r}\"/></g><reuse href=\"^\" y=\"10\"/>"), 2),
         ("id", "<rect wh=\"5\" id=\"r{{randint(1,1000000)}}\"/>".to_string(), 1),
         ("group-id", "<g id=\"g{{randint(1,1000000)}}\"><rect wh=\"1\"/></g>".to_string(), 1),
         ("group-local-used-twice", format!("<g k=\"{r}\"><rect wh=\"5\" text=\"R$k\"/><rect xy=\"^|h\" wh=\"5\" text=\"R$k\"/></g>"), 1),
